@@ -53,7 +53,8 @@ def tsallis_entropy(dist, order, rvs=None, rv_mode=None):
         rvs = list(flatten(normalize_rvs(dist, rvs, None, rv_mode)[0]))
         dist = dist.marginal(rvs, rv_mode)
 
-    pmf = dist.pmf
+    # Zero-probability outcomes (stored explicitly) contribute nothing.
+    pmf = dist.pmf[dist.pmf > 0]
 
     if order == 1:
         S_q = entropy(dist) / np.log2(np.e)
